@@ -224,7 +224,7 @@ def run(ck, facts):
     if not fail_edges:
         ck.bad("R2", "write_str/fail-edge", "no branch on the result of grow(self, needed_len) found", C.loc(ws))
     for a, b in fail_edges:
-        reach = m.feasible_reach(b, adts_all)
+        reach = m.feasible_reach(b, adts_all, via=a)
         flag_set = False
         problems = []
         for bb, st in m.stores():
